@@ -1,0 +1,11 @@
+//go:build verif
+
+package batch
+
+import "github.com/cedar-policy/cedar-go/types"
+
+// VerifCloneSub exposes cloneSub (substitution of one variable inside a value) to the
+// verification harness (build tag verif; additive, read-only).
+func VerifCloneSub(r types.Value, k types.String, v types.Value) (types.Value, bool) {
+	return cloneSub(r, k, v)
+}
